@@ -75,4 +75,10 @@ C05_Link4 == Links(P4, P4, {"A", "B"}, {c_top, c_ab}, {<<>>, <<Acc({1, 2}), Acc(
 \* thorough, second instance: three principals, all windows / hooks / irrelevant fields, three instants
 C05_Inv3r  == Invs(P3, {"A", "B"}, {"M", None}, {c_ab, c_aab}, {1}, {-1, 6}, {"none", "id"}, {0, 3})
 C05_Link3r == Links(P3, P3, {"A", "B"}, {c_top, c_a, c_ab}, {<<>>, <<Acc({1})>>}, {-1, 0}, {-1, 6})
+\* far family (C04, C05): bounds at the far ends of the time line: 99 = far future (beyond the int64
+\* nanosecond range, years 3000 / 9999, 2^53-1 s), -99 = far past (before 1678, year 1000, the epoch)
+C05_InvF  == Invs({"S"}, {"S"}, {None}, {c_a}, {0}, {-1, 6, 99}, {"none"}, {0})
+C05_LinkF == Links({"S"}, {"S"}, {"S"}, {c_a}, {<<>>}, {-1, 0, -99}, {-1, 6, 99})
+C04_InvF  == Invs({"S"}, {"S"}, {None}, {c_a}, {0}, {-1, 2, 99, -99}, {"none"}, {0})
+C04_LinkF == Links({"S"}, {"S"}, {"S"}, {c_a}, {<<>>}, {-1, 2, 99, -99}, {-1, 4, 99})
 =============================================================================
